@@ -25,6 +25,7 @@ fn histories(seed: u64, nrandom: usize) -> Vec<Vec<(usize, FftDirection)>> {
         vec![1201, 1200, 2402, 600, 300],
         vec![11, 37, 41, 407, 451, 1517, 74, 111, 82, 59, 649],
         vec![83, 166, 107, 214, 167, 1031, 59, 118, 149],
+        vec![512, 1536, 1024, 3072, 2048, 6144, 384, 719, 1439],
     ];
     let mut hs = vec![];
     for pool in &pools {
